@@ -207,6 +207,13 @@ MUTANTS = [
     ("C13", TC, "            target_tree_list = tree_lists[collection_offset]\n            tree_list.copy_annotations_from(target_tree_list)",
      "            target_tree_list = tree_lists[-1] if collection_offset + 1 == len(tree_lists) - 1 else tree_lists[collection_offset]\n            tree_list.copy_annotations_from(target_tree_list)",
      "TreeList.get: the last-but-one collection is answered with the last"),
+    ("C13", "dendropy/datamodel/datasetmodel.py", "        exclude_trees = kwargs.pop(\"exclude_trees\", False)\n        exclude_chars = kwargs.pop(\"exclude_chars\", False)",
+     "        exclude_trees = kwargs.pop(\"exclude_trees\", False)\n        exclude_chars = kwargs.pop(\"exclude_chars\", exclude_trees)", "DataSet.get(exclude_trees=True) also drops the matrices"),
+    ("C13", "dendropy/datamodel/datasetmodel.py", "        return (n_tns2-n_tns,\n                n_tree_lists2-n_tree_lists,", "        return (n_tns2,\n                n_tree_lists2-n_tree_lists,",
+     "DataSet.read reports the number of namespaces held, not read"),
+    ("C13", "dendropy/datamodel/datasetmodel.py", "        if self.attached_taxon_namespace is not None and taxon_namespace is None:\n            taxon_namespace = self.attached_taxon_namespace",
+     "        if self.attached_taxon_namespace is not None and taxon_namespace is None and not exclude_chars:\n            taxon_namespace = self.attached_taxon_namespace",
+     "DataSet.read with exclude_chars ignores the attached namespace"),
     ("C19", "dendropy/datamodel/charmatrixmodel.py", "        self.fill(value=value, size=size, append=append)", "        self.fill(value=value, size=size)",
      "pack: `append` not passed on to fill"),
     ("C19", "dendropy/datamodel/charmatrixmodel.py", "            if taxon not in to_keep:\n                del self._taxon_sequence_map[taxon]",
